@@ -36,6 +36,25 @@ GEN = [0x3B6A57B2, 0x26508E6D, 0x1EA119FA, 0x3D4233DD, 0x2A1462B3]
 M_CONST = 0x2BC830A3
 
 
+def xor_nf(t):
+    """XOR is associative and commutative: (XOR of the constant operands, the other operands in a fixed order)."""
+    parts, work = [], [t]
+    while work:
+        x = work.pop()
+        if isinstance(x, T) and x.op == "bxor":
+            work.extend(rules.unfz(a) for a in x.args)
+        else:
+            parts.append(x)
+    c = 0
+    rest = []
+    for x in parts:
+        if isinstance(x, int) and not isinstance(x, bool):
+            c ^= x
+        else:
+            rest.append(x)
+    return c, sorted((repr(tm._fz(x)) for x in rest))
+
+
 # ----------------------------------------------------------------------------- tables and checksum terms
 def check_tables(ctx, oid="C06.5"):
     R = ctx.R
@@ -51,24 +70,39 @@ def check_tables(ctx, oid="C06.5"):
             "HRP/network map differs", nontrivial=False)
     R.check(oid, "TABLE", ("src/bits/bips/bip350.py", "bits.bips.bip350"), "BECH32M_CONST", ev.const("bits.bips.bip350", "BECH32M_CONST") == M_CONST,
             "Bech32m constant differs from BIP350", nontrivial=False)
-    # polymod loop body
+    # polymod: one left fold over the values, from 1, by BIP173's step -- written as a loop with an accumulator or as
+    # functools.reduce(step, values, 1)
     fp = ctx.fn(B + "bech32_polymod")
+
+    def polymod_fold(s):
+        """(accumulator term, element term, step term, returns-the-accumulator) of the fold, None when there is not exactly one"""
+        loops = [lp for lp in s.loops if lp.func == fp.qualname and lp.kind == "for" and lp.depth == 0]
+        rets = s.returns()
+        if len(loops) == 1 and tm.veq(loops[0].iter, P("values", tm.LIST)):
+            var = [v for v, init in loops[0].init.items() if init == 1]
+            if len(var) != 1:
+                return "the checksum accumulator does not start at 1"
+            ret_ok = len(rets) == 1 and isinstance(rets[0].value, T) and rets[0].value.op == "fold" and rets[0].value.args[0] == var[0]
+            return T("acc", (var[0], 0), tm.INT), tm.bv(0), loops[0].body.get(var[0]), ret_ok
+        if not loops and len(rets) == 1 and isinstance(rets[0].value, T) and rets[0].value.op == "fold" and len(rets[0].value.args) == 5:
+            name, body, init, it, d = rets[0].value.args
+            if not tm.veq(rules.unfz(it), P("values", tm.LIST)):
+                return None
+            if init != 1:
+                return "the checksum accumulator does not start at 1"
+            return T("acc", (name, d), tm.INT), tm.bv(d), rules.unfz(body), True
+        return None
     s = ev.run(fp)
-    loops = [lp for lp in s.loops if lp.func == fp.qualname and lp.kind == "for" and lp.depth == 0]
-    okl = len(loops) == 1 and tm.veq(loops[0].iter, P("values", tm.LIST))
-    R.check(oid, "TERM-EQ", fp, "polymod folds over the values", okl, "bech32_polymod does not iterate over its argument once")
-    if okl:
-        lp = loops[0]
-        var = [v for v, init in lp.init.items() if init == 1]
-        R.check(oid, "TERM-EQ", fp, "polymod starts at 1", len(var) == 1, "checksum accumulator does not start at 1")
-        if len(var) == 1:
-            acc = T("acc", (var[0], 0), tm.INT)
-            v = tm.bv(0)
+    pf = polymod_fold(s)
+    R.check(oid, "TERM-EQ", fp, "polymod folds over the values", pf is not None, "bech32_polymod does not iterate over its argument once")
+    if pf is not None:
+        R.check(oid, "TERM-EQ", fp, "polymod starts at 1", not isinstance(pf, str), "checksum accumulator does not start at 1")
+        if not isinstance(pf, str):
+            acc, v, got, ret_ok = pf
             b = tm.binop("shr", acc, 25)
             c = tm.binop("bxor", tm.binop("shl", tm.binop("band", acc, 0x1FFFFFF), 5), v)
             for i in range(5):
                 c = tm.binop("bxor", c, tm.ite(tm.truth(tm.binop("band", tm.binop("shr", b, i), 1)), GEN[i], 0))
-            got = lp.body.get(var[0])
             same = tm.veq(got, c)
             diff = tm.first_diff(got, c)
             if not same:
@@ -78,14 +112,14 @@ def check_tables(ctx, oid="C06.5"):
                 same = True
                 for t in range(32):
                     ev.bind = {b: t}
-                    lps = [lp2 for lp2 in ev.run(fp).loops if lp2.func == fp.qualname and lp2.kind == "for" and lp2.depth == 0]
+                    pf2 = polymod_fold(ev.run(fp))
                     x = 0
                     for i in range(5):
                         if (t >> i) & 1:
                             x ^= GEN[i]
                     want_t = tm.binop("bxor", tm.binop("bxor", tm.binop("shl", tm.binop("band", acc, 0x1FFFFFF), 5), v), x)
-                    got_t = lps[0].body.get(var[0]) if len(lps) == 1 else None
-                    if not tm.veq(got_t, want_t):
+                    got_t = pf2[2] if isinstance(pf2, tuple) and tm.veq(pf2[0], acc) and tm.veq(pf2[1], v) else None
+                    if not tm.veq(got_t, want_t) and not (got_t is not None and xor_nf(got_t) == xor_nf(want_t)):
                         same = False
                         diff = "for chk >> 25 == %d: %s" % (t, tm.first_diff(got_t, want_t))
                         break
@@ -93,8 +127,7 @@ def check_tables(ctx, oid="C06.5"):
             R.check(oid, "TERM-EQ", fp, "polymod step = BIP173's (generator constants, shifts, masks)", same,
                     "polymod step: %s" % diff, expected=tm.show(c)[:300], found=tm.show(got)[:300])
             rets = s.returns()
-            R.check(oid, "TERM-EQ", fp, "polymod returns the accumulator", len(rets) == 1 and isinstance(rets[0].value, T) and rets[0].value.op == "fold"
-                    and rets[0].value.args[0] == var[0], "bech32_polymod returns %s" % (tm.show(rets[0].value)[:80] if rets else None))
+            R.check(oid, "TERM-EQ", fp, "polymod returns the accumulator", ret_ok, "bech32_polymod returns %s" % (tm.show(rets[0].value)[:80] if rets else None))
     evo = ctx.evaluator(opaque={B + "bech32_polymod"})
     fe = ctx.fn(B + "bech32_hrp_expand")
     sv = P("s", tm.LIST)
